@@ -43,7 +43,7 @@ CONSTANTS
   RtpForgeKinds, RtcpForgeKinds,   \* forgery classes explored
   ForgeOffsets,  \* forged sequence numbers, relative to the receiver's highest (and 0 when it has none)
   ForgeReps,     \* a forgery is presented this many times in a row (failure counters, rate-limited paths)
-  Deviations,    \* subset of {"RtcpIndexBeforeAuth", "TableBeforeAuth", "RtpUpdateBeforeAuth", "EstimateSlack"}
+  Deviations,    \* subset of {"EvictLosesState", "RtcpIndexBeforeAuth", "TableBeforeAuth", "RtpUpdateBeforeAuth", "EstimateSlack"}
   Props          \* listed properties whose rules are switched on: subset of {"C04", "C05", "EXT"}
 
 VARIABLES
@@ -108,8 +108,11 @@ IdealMust(k, i) == IdealMustAt(ideal, k, i)
 ---------------------------------------------------------------------------
 (* Context table                                                            *)
 Count(t) == Cardinality({k \in AllSsrcs : t[k].on})
+\* Intended design: a context that holds a stream's position is never lost (C04 quantifies over any number of
+\* SSRCs and over histories with silences). The pinned code drops every context idle for 60 s once more than 32
+\* exist (deviation "EvictLosesState": open finding KF-C04-2).
 Evict(t, k) ==
-  IF Count(t) > Watermark
+  IF "EvictLosesState" \in Deviations /\ Count(t) > Watermark
   THEN [j \in AllSsrcs |-> IF j # k /\ t[j].on /\ t[j].idle THEN FreshCtx ELSE t[j]]
   ELSE t
 Admit(t, k) == LET e == Evict(t, k) IN [e EXCEPT ![k] = [@ EXCEPT !.on = TRUE, !.idle = FALSE]]
@@ -316,10 +319,8 @@ IndexMonotone == [][ Rule("EXT", \A s \in Ssrcs : (rx[s].on /\ rx'[s].on) =>
 \* genuine SRTCP is accepted in any order
 RtcpAccepted == Rule("EXT", (step.op = "deliver" /\ step.proto = "rtcp") => step.acc)
 
-\* (EXT) context eviction never costs a stream: what a never-forgetting receiver must accept, this one must accept.
-\* Fails by design once more than Watermark streams are live and one has been silent for 60 s (named rule, not part
-\* of the default PROPERTIES: the code documents the trade-off).
-NoLossByEviction == Rule("EXT", (step.op = "deliver" /\ step.imust /\ ~step.replay) => step.acc)
+\* context eviction never costs a stream: what a receiver that never forgets must accept, this one must accept
+NoLossByEviction == Rule("C04", (step.op = "deliver" /\ step.imust /\ ~step.replay) => step.acc)
 
 TypeOK ==
   /\ \A s \in Ssrcs : sHi[s] \in -1..TopIdx
